@@ -30,6 +30,11 @@ def units():
                          oracle=O.eos_oracle('Noh2', 'noh2', 'gammalaw', spec=c01.G, rt=c01.noh2_rt)))
     out.append(flow.Unit('rmtv', groups=['rmtv'], props=['props/C03_rmtv.v'],
                          oracle=lambda rng, tier, reasons: EA.oracle(rng, tier, reasons, kinds=('rmtv',))))
+    import mader_corr as MC
+    out.append(flow.Unit('mader', groups=['mader'], props=['props/C03_mader.v'], custom_corr=MC.unit_corr,
+                         oracle=lambda rng, tier, reasons: EA.oracle(rng, tier, reasons, kinds=('mader',)),
+                         note='Taylor wave of rare(): c^2 = gamma p / rho pointwise and the isentrope through the CJ state (theorem on the mirror that is definitionally '
+                              'the generated code); cell averages are compared on the real code by the oracle'))
     out.append(flow.Unit('eos-real-code', groups=[], props=[], oracle=EA.oracle, always_oracle=True,
                          note='EOS consistency on the real code for both Riemann drivers with different gammas on the two sides (side decided from the contact '
                               'position), Sedov, EHEP, Mader (cell averages: tolerance 1e-4 on a fine grid) and RMTV'))
